@@ -1,4 +1,5 @@
-"""C05 — no rule fails internally (decided clause: three *shapes*).
+"""C05 — no rule fails internally (decided clause: *shapes* of latent IndexError / StopIteration / ValueError, the
+exception-to-violation handler, and flag forwarding in recursive walks).
 
 R05a  unbounded index scan.  A ``while`` loop (or ``for .. in count()``) in
       ``rules/`` or ``utils/`` that subscripts a sequence with an index variable
@@ -35,6 +36,41 @@ R05c  ``BaseRule.crawl`` converts anything ``_eval`` (and the whole-rule native
       stands in a ``try`` whose handlers are exactly ``(bdb.BdbQuit,
       KeyboardInterrupt) -> raise`` and ``Exception -> log, append SQLLintError,
       return`` (no ``raise`` in the converting handler).
+
+R05d  flag forwarding in recursive / delegating calls (see ``_r05d``).
+
+R05e  constant-index subscripts.  Every ``X[k]`` / ``X[-k]`` with a literal ``k`` (Load
+      context) in ``rules/`` and ``utils/`` (``utils/testing`` excluded) is *guarded*: a
+      fact known at the subscript implies that ``X`` has more than ``k`` elements.  The
+      guard inference and the list of accepted idioms live in ``sa/subscripts.py``
+      (dominating truthiness / ``len`` tests, short circuit, conditional expression,
+      comprehension filter, ``for`` over the collection, ``try/except IndexError``,
+      construction with a known number of elements, ``str.split(sep)``, values derived
+      through the utils.functional API, ``[f(r) for r in X] == [a, b]``, typed
+      ReflowBlocks, the crawler guarantee for ``context.parent_stack``).  A site the
+      inference cannot discharge must be an entry of ``R05E_TABLE`` -- read once, keyed
+      by (path, qualified function, normalised subscript text) with the reason why the
+      collection is long enough:
+
+        PARSER        child list / raw-segment list of a parsed node of a never-raw type
+                      (``MatchResult.apply`` cannot build a node over an empty slice); the
+                      type list is re-checked against the dialect grammar graph in the
+                      thorough tier
+        GRAMMAR       a named fact about the dialect grammars
+        LEXER         lexed tokens have a non-empty raw
+        CONSTRUCTION  built by the surrounding code with that many elements
+        CONTRACT      precondition established by the (only) callers
+        CRAWLER       crawler guarantee reached through a helper
+        INVARIANT     data-model invariant of utils/reflow (I-ALT, I-LINE, one-segment blocks)
+        NO_WITNESS    no argument found and no crashing input found: listed, counted
+                      separately (``R05e.no_witness``), not claimed to be safe
+
+      An unguarded site that is not in the table (new code, a dropped guard, ``.get(0)``
+      turned into ``[0]``, one more occurrence than reviewed) is a violation.  A table
+      entry whose site vanished is a stale note.  ``ReflowBlock`` constructors must pass a
+      one-element ``segments`` tuple (what the ``reflow-block`` idiom relies on).
+      An ``assert`` is accepted as a guard of the *IndexError* shape only (it turns the
+      failure into an AssertionError; counted as ``R05e.guarded.assert``).
 """
 
 from __future__ import annotations
@@ -57,6 +93,7 @@ from ..index import (
     walk_local,
 )
 from ..report import construct_of
+from .. import subscripts as _subs
 
 SCOPES = ("src/sqlfluff/rules/", "src/sqlfluff/utils/")
 BASE = "src/sqlfluff/core/rules/base.py"
@@ -379,10 +416,12 @@ def run(chk) -> None:
     chk.rule("R05b", "every next(it) without default and seq.index(x) in rules/ and utils/ is guarded (try / membership test) or is a site reviewed and frozen in the table")
     chk.rule("R05c", "BaseRule.crawl runs _eval/_eval_rust inside try: (BdbQuit, KeyboardInterrupt) re-raised, Exception logged and converted to an 'Unexpected exception' SQLLintError without re-raising")
     chk.rule("R05d", "a function in rules/ or utils/ that calls a function of its own name (recursion, or delegation to a parent/child object) forwards each of its boolean flag parameters unchanged, or the site is a reviewed table entry")
+    chk.rule("R05e", "every constant-index subscript X[k] / X[-k] in rules/ and utils/ is guarded by a fact that implies len(X) > k (dominating test, short circuit, construction, try, ...; sa/subscripts.py) or is a site reviewed into R05E_TABLE with the shape invariant that makes it safe; ReflowBlock is only constructed with a one-element segments tuple")
     _r05a(chk)
     _r05b(chk)
     _r05c(chk)
     _r05d(chk)
+    _r05e(chk)
 
 
 # ---- R05d -------------------------------------------------------------------
@@ -448,6 +487,253 @@ def _r05d(chk) -> None:
     chk.count("R05d.flag_forwarding_sites", n)
     chk.floor("R05d.flag_forwarding_sites", 4)
 
+
+
+# ---- R05e -------------------------------------------------------------------
+
+# (path below src/sqlfluff/, function, normalised subscript, max unguarded occurrences, CLASS, reason[, never-raw types])
+_P = "the receiver is the child list / raw-segment list of a parsed node: MatchResult.apply never instantiates a segment class over an empty slice (asserted there), and the node's type is produced only by non-raw segment classes in every dialect"
+_ALT = "I-ALT: ReflowSequence elements alternate block/point (_validate_reflow_sequence asserts it, _elements_from_raw_segments builds it that way); the indexed element is the neighbour of a point, i.e. a ReflowBlock, and a ReflowBlock holds exactly one segment (constructors checked by R05e)"
+_LINE = "I-LINE: an _IndentLine always has at least one indent point: both construction sites in _map_line_buffers call from_points(point_buffer) right after point_buffer.append(..) / under len(point_buffer) > 1"
+_RAWS = "raw_segments of a segment is never empty: a raw segment returns [self], a parsed node has at least one child (MatchResult.apply)"
+R05E_TABLE = [
+    # ---- rules/ -------------------------------------------------------------------
+    ("rules/aliasing/AL08.py", "Rule_AL08._eval", "column_reference.segments[-1]", 1, "PARSER", _P, ("column_reference",)),
+    ("rules/aliasing/AL09.py", "Rule_AL09._eval", "clause_element_raw_segments[0]", 2, "PARSER", "get_raw_segments() of a select_clause_element selected from the clause's children; " + _RAWS, ("select_clause_element",)),
+    ("rules/ambiguous/AM02.py", "Rule_AM02._eval", "context.segment.segments[0]", 2, "PARSER", _P + " (crawler seeks set_operator)", ("set_operator",)),
+    ("rules/ambiguous/AM05.py", "Rule_AM05._eval", "context.segment.segments[0]", 4, "PARSER", _P + " (crawler seeks join_clause)", ("join_clause",)),
+    ("rules/ambiguous/AM05.py", "Rule_AM05._eval", "join_clause_keywords[0]", 3, "GRAMMAR", "every dialect's JoinClauseSegment alternatives are Sequences whose join keywords (JoinTypeKeywordsGrammar / JoinKeywordsGrammar / APPLY ..) are direct keyword children and mandatory, not GREEDY: a join_clause has >= 1 direct keyword (490 join_clause nodes of the dialect fixtures: min 1; no witness among ~20k malformed inputs)"),
+    ("rules/ambiguous/AM05.py", "Rule_AM05._eval", "join_clause_keywords[1]", 2, "GRAMMAR", "evaluated only after join_clause_keywords[0] is RIGHT/LEFT/FULL (short-circuit): a join type keyword is always followed by the mandatory JOIN keyword (JoinKeywordsGrammar) in the same Sequence"),
+    ("rules/convention/CV03.py", "Rule_CV03._eval", "children.last(sp.is_code())[0]", 1, "GRAMMAR", "a select_clause starts with the SELECT keyword in every dialect (first child of all 5614 select_clause nodes of the fixtures is a keyword): a code child exists", ("select_clause",)),
+    ("rules/convention/CV05.py", "Rule_CV05._eval", "sub_seg.raw[0]", 1, "LEXER", "sub_seg is a null_literal (all(sp.is_type('null_literal')) and asserted present): a lexed code token has a non-empty raw"),
+    ("rules/convention/CV06.py", "Rule_CV06._ensure_final_semicolon", "statement_container.segments[-1]", 2, "CONSTRUCTION", "statement_container was chosen because last_statement was found among its .segments (or is the non-raw child it was found under); 'if not statement_container: return' precedes"),
+    ("rules/convention/CV06.py", "Rule_CV06._handle_preceding_inline_comments", "anchor_segment.raw_segments[-1]", 1, "PARSER", _RAWS + " (the source comment says the same)"),
+    ("rules/convention/CV08.py", "Rule_CV08._eval", "context.segment.segments[0]", 1, "PARSER", _P + " (crawler seeks join_clause)", ("join_clause",)),
+    ("rules/convention/CV10.py", "Rule_CV10._eval", "context.segment.raw[-1]", 1, "LEXER", "crawler seeks quoted_literal: a lexed token, raw is non-empty"),
+    ("rules/convention/CV10.py", "Rule_CV10._eval", "fixed_string[0]", 1, "CONSTRUCTION", "_normalize_preferred_quoted_literal_style returns its non-empty input or prefix + quote + body + quote"),
+    ("rules/convention/CV10.py", "Rule_CV10._normalize_preferred_quoted_literal_style", "value[0]", 2, "LEXER", "s is the raw of a quoted_literal: optional prefix letters followed by a quote character in every dialect's lexer pattern, so s.lstrip(prefix letters) keeps at least the quotes"),
+    ("rules/convention/CV12.py", "Rule_CV12._eval_gen", "select_statement.segments[-1]", 2, "CONSTRUCTION", "where_clause = select_statement.get_child('where_clause') is not None here, so the select_statement has children"),
+    ("rules/convention/CV12.py", "Rule_CV12._eval_gen", "select_statement.segments[-2]", 2, "GRAMMAR", "a select_statement that has a where_clause child also has its select_clause child (first element of the Sequence): >= 2 children"),
+    ("rules/convention/CV13.py", "Rule_CV13._eval", "statements[-1].segments[0]", 1, "PARSER", _P + " (get_children('statement'))", ("statement",)),
+    ("rules/jinja/JJ01.py", "Rule_JJ01._get_whitespace_ends", "s[-1]", 1, "CONTRACT", "only caller (_eval) passes `stripped` after 'if not stripped or stripped[0] != \"{\" or stripped[-1] != \"}\": continue'"),
+    ("rules/jinja/JJ01.py", "Rule_JJ01._get_whitespace_ends", "s[0]", 1, "CONTRACT", "only caller (_eval) passes `stripped` after 'if not stripped or ...: continue'"),
+    ("rules/layout/LT06.py", "Rule_LT06._eval", "children.first(sp.is_type('function_contents'))[0]", 1, "GRAMMAR", "FunctionSegment is Sequence(function name .., FunctionContentsSegment) in every dialect, both mandatory and not GREEDY (3172 function nodes of the fixtures all have both children)", ("function",)),
+    ("rules/layout/LT06.py", "Rule_LT06._eval", "children.first(sp.is_type('function_name'))[0]", 1, "GRAMMAR", "FunctionSegment is Sequence(function name .., FunctionContentsSegment) in every dialect (3172 function nodes of the fixtures all have both children)", ("function",)),
+    ("rules/layout/LT08.py", "Rule_LT08._eval", "forward_slice[0]", 1, "CONSTRUCTION", "forward_slice = expanded_segments[bracket_idx:] with bracket_idx an index produced by enumerate(expanded_segments): the slice starts at an existing element"),
+    ("rules/layout/LT10.py", "Rule_LT10._eval", "child_segments[0]", 1, "PARSER", "children of the select_clause the crawler seeks; " + _P, ("select_clause",)),
+    ("rules/layout/LT12.py", "Rule_LT12._eval", "parent_stack[1]", 1, "CONSTRUCTION", "else-branch of len(parent_stack) == 1; get_last_segment() pushes one entry per level that has children and the file segment of a non-empty file has children, so the length is >= 1 and here >= 2"),
+    ("rules/references/RF01.py", "Rule_RF01._get_table_refs", "sr.segments[0]", 1, "NO_WITNESS", "ObjectReferencePart.segments is empty only for the empty part of a BigQuery table_reference (x..y); refs reaching here come from select_info.reference_buffer (object references inside the select clause / where / ...), no input found that puts such a table_reference there"),
+    ("rules/references/RF01.py", "Rule_RF01._get_table_refs", "tr.segments[0]", 2, "NO_WITNESS", "same as sr.segments[0]: only a BigQuery table_reference yields parts without segments; none found in a reference_buffer"),
+    ("rules/references/RF01.py", "Rule_RF01._resolve_reference", "tbl_refs[0]", 1, "CONTRACT", "reached only when object_ref_matches_table(possible_references, ..) is False, and that helper returns True for an empty list (core/rules/reference.py); possible_references has one entry per tbl_ref"),
+    ("rules/references/RF01.py", "Rule_RF01._resolve_reference", "tbl_refs[0][0].segments[0]", 1, "NO_WITNESS", "same parts as in _get_table_refs (which subscripts them first)"),
+    ("rules/references/RF02.py", "Rule_RF02._find_sql_variables", "rule_context.parent_stack[0]", 1, "CRAWLER", "called from _lint_references_and_aliases with the context of _eval; the rule's crawler is SegmentSeekerCrawler({'select_statement'}) (inherited from AL04) and never yields the root"),
+    ("rules/references/RF03.py", "Rule_RF03._iter_available_targets", "subquery.selectables[0]", 1, "CONTRACT", "the only call that passes a subquery is _visit_queries(.., query) inside 'if query.selectables:'"),
+    ("rules/references/RF03.py", "_check_references", "table_aliases[0]", 2, "CONTRACT", "the only caller passes select_info.table_aliases under 'len(select_info.table_aliases) == 1'"),
+    ("rules/structure/ST02.py", "Rule_ST02._eval", "context.segment.segments[0]", 1, "PARSER", _P + " (crawler seeks case_expression)", ("case_expression",)),
+    ("rules/structure/ST05.py", "Rule_ST05._eval", "segment[0]", 2, "CONSTRUCTION", "segment is FunctionalContext(context).segment (one element) or insert_parent, assigned only under 'elif insert_parent and ..'"),
+    ("rules/structure/ST05.py", "Rule_ST05._lint_query", "nsq.table_alias.from_expression_element.segments[0]", 1, "PARSER", _P, ("from_expression_element",)),
+    ("rules/structure/ST05.py", "_CTEBuilder.ensure_space_after_from", "from_segment[0]", 2, "CONSTRUCTION", "under 'if missing_space_after_from', which _missing_space_after_from sets only when from_segment is truthy"),
+    ("rules/structure/ST05.py", "_is_correlated_subquery", "nested_select[0]", 1, "CONTRACT", "the only caller passes Segments(selectable_.selectable): one element"),
+    ("rules/structure/ST06.py", "Rule_ST06._eval", "e[0]", 2, "CONSTRUCTION", "isinstance(e, tuple) and e[0] == ..: e ranges over the class constant select_element_order_preference whose tuple entries are ('function', 'cast') style pairs"),
+    ("rules/structure/ST06.py", "Rule_ST06._eval", "e[1]", 1, "CONSTRUCTION", "the tuple entries of select_element_order_preference with e[0] == 'expression' are pairs"),
+    ("rules/structure/ST06.py", "Rule_ST06._eval", "self.seen_band_elements[-1]", 1, "CONSTRUCTION", "seen_band_elements = [[] for _ in select_element_order_preference] + [[]]: never empty"),
+    ("rules/structure/ST06.py", "Rule_ST06._is_simple_cast_expression", "segment.segments[0]", 1, "PARSER", _P + " (guarded by is_type('cast_expression'))", ("cast_expression",)),
+    ("rules/structure/ST07.py", "Rule_ST07._eval", "parts[0].segments[0]", 1, "NO_WITNESS", "parts of a reference from select_info.reference_buffer (guarded by 'if not parts: continue'); a part without segments exists only for a BigQuery table_reference x..y, none found in a reference_buffer"),
+    ("rules/structure/ST07.py", "_extract_cols_from_using", "using_segs[0]", 1, "CONTRACT", "the only caller passes using_anchor after 'if len(using_anchor) == 0: return None'"),
+    ("rules/structure/ST08.py", "Rule_ST08._eval", "bracketed.children()[0]", 1, "PARSER", "bracketed = children.first(is_type('function_contents')) is non-empty here ('or not bracketed' returned); " + _P, ("function_contents",)),
+    ("rules/structure/ST08.py", "Rule_ST08._remove_unneeded_brackets", "context.parent_stack[0]", 1, "CRAWLER", "called from _eval with its context; crawler SegmentSeekerCrawler({'select_clause', 'function'}) never yields the root"),
+    ("rules/structure/ST09.py", "Rule_ST09._eval", "children.recursive_crawl('from_expression_element')[0]", 1, "GRAMMAR", "a from_expression starts with a from_expression_element, a bracketed from_expression or (BigQuery) an ml_table_expression wrapping one; with a join_on_condition present (checked above) the join's own from_expression_element is found by the recursive crawl in any case"),
+    ("rules/structure/ST09.py", "Rule_ST09._eval", "subcondition[0]", 1, "CONSTRUCTION", "column_operator_column_subconditions keeps only lists accepted by _is_qualified_column_operator_qualified_column_sequence, which requires len == 3"),
+    ("rules/structure/ST09.py", "Rule_ST09._eval", "subcondition[1]", 1, "CONSTRUCTION", "see subcondition[0] (len == 3)"),
+    ("rules/structure/ST09.py", "Rule_ST09._eval", "subcondition[2]", 1, "CONSTRUCTION", "see subcondition[0] (len == 3)"),
+    ("rules/structure/ST11.py", "Rule_ST11._extract_references_from_expression", "table_reference.segments[-1]", 1, "PARSER", _P, ("table_reference",)),
+    ("rules/tsql/TQ01.py", "Rule_TQ01._eval", "object_reference_segment.segments[-1]", 1, "PARSER", _P + " (selected by s.type == 'object_reference')", ("object_reference",)),
+    # ---- utils/analysis, utils/functional -----------------------------------------
+    ("utils/analysis/query.py", "Query.from_segment", "cte.segments[0]", 1, "PARSER", _P + " (recursive_crawl('common_table_expression'))", ("common_table_expression",)),
+    ("utils/functional/context.py", "FunctionalContext.raw_segments", "self.context.parent_stack[0]", 1, "CONTRACT", "unused convenience property (pragma: no cover, no caller in the tree); needs a non-root context"),
+    # ---- utils/reflow ---------------------------------------------------------------
+    ("utils/reflow/elements.py", "_indent_description", "indent[0]", 2, "CONSTRUCTION", "after 'if indent == \"\": return': the string is non-empty"),
+    ("utils/reflow/rebreak.py", "identify_rebreak_spans", "element_buffer[idx].segments[0]", 1, "INVARIANT", "element_buffer[idx] is `elem` of the enumerating loop, which skips everything that is not a ReflowBlock ('if not isinstance(elem, ReflowBlock): continue'); a ReflowBlock holds exactly one segment"),
+    ("utils/reflow/rebreak.py", "rebreak_keywords_sequence", "elem_buff[loc.next.adj_pt_idx - 1].segments[-1]", 2, "INVARIANT", _ALT),
+    ("utils/reflow/rebreak.py", "rebreak_keywords_sequence", "elem_buff[loc.prev.adj_pt_idx + 1].segments[0]", 2, "INVARIANT", _ALT),
+    ("utils/reflow/rebreak.py", "rebreak_sequence", "first_create_anchor(elem_buff, range(loc.next.pre_code_pt_idx, loc.next.adj_pt_idx - 1, -1))[-1]", 1, "CONSTRUCTION", "first_create_anchor returns the first elem_buff[i].segments that is truthy (generator filter) or raises"),
+    ("utils/reflow/rebreak.py", "rebreak_sequence", "lead_create_anchor[-1]", 1, "CONSTRUCTION", "lead_create_anchor = first_create_anchor(..): a truthy segments tuple"),
+    ("utils/reflow/rebreak.py", "rebreak_sequence", "loc.target.raw_segments[-1]", 2, "PARSER", _RAWS),
+    ("utils/reflow/rebreak.py", "rebreak_sequence", "loc.target.raw_segments[0]", 2, "PARSER", _RAWS),
+    ("utils/reflow/respace.py", "determine_constraints", "common[-1]", 2, "INVARIANT", "prev_block and next_block are raw segments of the same file: their DepthInfo stacks share at least the root ('file') hash, so common_with() is non-empty (it asserts a common depth itself)"),
+    ("utils/reflow/reindent.py", "_IndentLine.closing_balance", "self.indent_points[-1]", 1, "INVARIANT", _LINE),
+    ("utils/reflow/reindent.py", "_IndentLine.desired_indent_units", "self.indent_points[0]", 8, "INVARIANT", _LINE),
+    ("utils/reflow/reindent.py", "_IndentLine.from_points", "indent_points[-1]", 1, "INVARIANT", _LINE),
+    ("utils/reflow/reindent.py", "_IndentLine.from_points", "indent_points[0]", 1, "INVARIANT", _LINE),
+    ("utils/reflow/reindent.py", "_IndentLine.iter_elements", "self.indent_points[-1]", 3, "INVARIANT", _LINE),
+    ("utils/reflow/reindent.py", "_IndentLine.iter_elements", "self.indent_points[0]", 1, "INVARIANT", _LINE),
+    ("utils/reflow/reindent.py", "_IndentLine.opening_balance", "self.indent_points[-1]", 1, "INVARIANT", _LINE),
+    ("utils/reflow/reindent.py", "_IndentLine.opening_balance", "self.indent_points[0]", 1, "INVARIANT", _LINE),
+    ("utils/reflow/reindent.py", "_convert_newlines_to_spaces", "elem.segments[0]", 1, "CONSTRUCTION", "under 'if fixes:' and fixes is filled only inside 'if elem.segments:'"),
+    ("utils/reflow/reindent.py", "_crawl_indent_points", "elements[idx + 1].segments[0]", 2, "INVARIANT", "idx is the index of a ReflowPoint (the loop handles points only); " + _ALT),
+    ("utils/reflow/reindent.py", "_deduce_line_current_indent", "elements[0]", 6, "CONTRACT", "elements is the element list of a ReflowSequence built from a non-empty file (callers pass the sequence they are linting)"),
+    ("utils/reflow/reindent.py", "_fix_long_line_with_comment", "elements[last_indent_idx + 1].segments[0]", 1, "INVARIANT", "last_indent_idx is the index of the line's indent point; " + _ALT),
+    ("utils/reflow/reindent.py", "_fix_long_line_with_comment", "line_buffer[-1]", 5, "CONTRACT", "lint_line_length calls it only under 'len(line_buffer) > 1 and line_buffer[-1].segments[-1].is_type(\"inline_comment\")'"),
+    ("utils/reflow/reindent.py", "_fix_long_line_with_comment", "line_buffer[-1].segments[-1]", 3, "CONTRACT", "the caller has just evaluated line_buffer[-1].segments[-1].is_type('inline_comment')"),
+    ("utils/reflow/reindent.py", "_fix_long_line_with_comment", "line_buffer[-2]", 2, "CONTRACT", "caller: len(line_buffer) > 1"),
+    ("utils/reflow/reindent.py", "_fix_long_line_with_comment", "line_buffer[0]", 1, "CONTRACT", "caller: len(line_buffer) > 1"),
+    ("utils/reflow/reindent.py", "_fix_long_line_with_comment", "line_buffer[0].segments[0]", 1, "CONTRACT", "caller (lint_line_length) asserts line_buffer[0].segments before"),
+    ("utils/reflow/reindent.py", "_fix_long_line_with_fractional_targets", "elements[e_idx + 1].segments[0]", 1, "INVARIANT", "target_breaks are indices of points; " + _ALT),
+    ("utils/reflow/reindent.py", "_fix_long_line_with_fractional_targets", "elements[e_idx - 1].segments[-1]", 1, "INVARIANT", "target_breaks are indices of points; " + _ALT),
+    ("utils/reflow/reindent.py", "_fix_long_line_with_integer_targets", "elements[e_idx + 1].segments[0]", 3, "INVARIANT", "target_breaks are indices of points; " + _ALT),
+    ("utils/reflow/reindent.py", "_fix_long_line_with_integer_targets", "elements[e_idx - 1].segments[-1]", 1, "INVARIANT", "target_breaks are indices of points; " + _ALT),
+    ("utils/reflow/reindent.py", "_lint_line_buffer_indents", "elements[indent_line.indent_points[0].idx + 1].segments[0]", 2, "INVARIANT", "an indent point's idx is the index of a ReflowPoint; " + _ALT),
+    ("utils/reflow/reindent.py", "_lint_line_buffer_indents", "indent_line.indent_points[-1]", 2, "INVARIANT", _LINE),
+    ("utils/reflow/reindent.py", "_lint_line_buffer_indents", "indent_line.indent_points[0]", 4, "INVARIANT", _LINE),
+    ("utils/reflow/reindent.py", "_lint_line_starting_indent", "elements[indent_points[0].idx].segments[0]", 1, "INVARIANT", "under 'indent_points[0].idx == 0 and not is_line_break': elements[0] is a point only when the file starts with whitespace / a whitespace placeholder, and _elements_from_raw_segments creates a leading point only from a non-empty buffer"),
+    ("utils/reflow/reindent.py", "_lint_line_starting_indent", "elements[initial_point_idx + 1].segments[0]", 2, "INVARIANT", "an indent point's idx is the index of a ReflowPoint; " + _ALT),
+    ("utils/reflow/reindent.py", "_lint_line_starting_indent", "indent_points[-1]", 1, "INVARIANT", _LINE),
+    ("utils/reflow/reindent.py", "_lint_line_starting_indent", "indent_points[0]", 5, "INVARIANT", _LINE),
+    ("utils/reflow/reindent.py", "_lint_line_starting_indent", "initial_point.segments[0]", 1, "INVARIANT", "same leading point as elements[indent_points[0].idx] (non-empty by construction of the sequence)"),
+    ("utils/reflow/reindent.py", "_lint_line_untaken_negative_indents", "elements[ip.idx + 1].segments[0]", 4, "INVARIANT", "an indent point's idx is the index of a ReflowPoint; " + _ALT),
+    ("utils/reflow/reindent.py", "_lint_line_untaken_positive_indents", "elements[ip.idx + 1].segments[0]", 2, "INVARIANT", "an indent point's idx is the index of a ReflowPoint; " + _ALT),
+    ("utils/reflow/reindent.py", "_lint_line_untaken_positive_indents", "elements[target_point_idx + 1].segments[0]", 2, "INVARIANT", "target_point_idx is the idx of an indent point; " + _ALT),
+    ("utils/reflow/reindent.py", "_lint_line_untaken_positive_indents", "indent_line.indent_points[-1]", 1, "INVARIANT", _LINE),
+    ("utils/reflow/reindent.py", "_lint_line_untaken_positive_indents", "indent_points[-1]", 1, "INVARIANT", _LINE),
+    ("utils/reflow/reindent.py", "_revise_templated_lines", "_element.segments[0]", 2, "INVARIANT", "else-branch of isinstance(_element, ReflowPoint): a ReflowBlock, one segment"),
+    ("utils/reflow/reindent.py", "_revise_templated_lines", "elements[first_point_idx - 1].segments[0]", 1, "INVARIANT", "first_point_idx is the idx of an indent point; " + _ALT),
+    ("utils/reflow/reindent.py", "_revise_templated_lines", "elements[ip.idx + 1].segments[0]", 1, "INVARIANT", "an indent point's idx is the index of a ReflowPoint; " + _ALT),
+    ("utils/reflow/reindent.py", "_revise_templated_lines", "elements[line.indent_points[0].idx + 1].segments[0]", 1, "INVARIANT", "an indent point's idx is the index of a ReflowPoint; " + _ALT),
+    ("utils/reflow/reindent.py", "_revise_templated_lines", "group_lines[-1]", 2, "CONSTRUCTION", "group_lines = grouped[group_uuid] for a key of the defaultdict(list) 'grouped': a key exists only after an append"),
+    ("utils/reflow/reindent.py", "_revise_templated_lines", "group_lines[0]", 3, "CONSTRUCTION", "see group_lines[-1]"),
+    ("utils/reflow/reindent.py", "_revise_templated_lines", "line.indent_points[-1]", 1, "INVARIANT", _LINE),
+    ("utils/reflow/reindent.py", "_revise_templated_lines", "line.indent_points[0]", 3, "INVARIANT", _LINE),
+    ("utils/reflow/reindent.py", "_revise_templated_lines", "lines[idx - 1].indent_points[0]", 1, "INVARIANT", _LINE),
+    ("utils/reflow/reindent.py", "_revise_templated_lines", "lines[next_group_line].indent_points[0]", 1, "INVARIANT", _LINE),
+    ("utils/reflow/reindent.py", "lint_line_length", "line_buffer[-1].segments[-1]", 1, "INVARIANT", "line_buffer ends with the last block of the line (the buffer is cut at a point): a ReflowBlock, one segment; 'len(line_buffer) > 1' stands to the left"),
+]
+
+
+R05E_CLASSES = ("PARSER", "GRAMMAR", "LEXER", "CONSTRUCTION", "CONTRACT", "CRAWLER", "INVARIANT", "NO_WITNESS")
+
+
+def _r05e(chk) -> None:
+    repo = chk.repo
+    cx = _subs.Ctx(repo)
+    table = {}
+    for ent in R05E_TABLE:
+        path, func, text, limit, cls, reason = ent[:6]
+        if cls not in R05E_CLASSES:
+            raise AnalysisError(f"R05e: table entry {path}::{func} {text} has unknown class {cls}")
+        table[(path, func, text)] = ent
+    used: Dict[tuple, int] = {}
+    unguarded: Dict[tuple, list] = {}
+    n_sites = 0
+    for m, n in _subs.sites(repo):
+        n_sites += 1
+        idiom, why = _subs.judge(cx, n, m)
+        if idiom is not None:
+            kind = idiom.split(":")[0] if idiom.startswith("derived") else idiom
+            chk.count(f"R05e.guarded.{kind}")
+            chk.count("R05e.guarded")
+            continue
+        f = _subs._real_function(n)
+        key = (_rel(m), qualname(f) if f is not None else "<module>", norm(n))
+        unguarded.setdefault(key, []).append((n, why))
+    chk.count("R05e.sites", n_sites)
+    sampled = 0
+    for key, occ in unguarded.items():
+        n0 = occ[0][0]
+        construct = f"src/sqlfluff/{key[0]}::{key[1]}"
+        detail = f"{key[1]}: {key[2]}"
+        ent = table.get(key)
+        if ent is None:
+            chk.count("R05e.unreviewed_unguarded", len(occ))
+            chk.fail(
+                "R05e", n0,
+                f"unguarded constant-index subscript {short(n0, 90)} ({len(occ)} occurrence(s) in {key[1]}): nothing known here implies the collection is long enough "
+                f"({occ[0][1]}); on a parse tree where it is shorter this raises IndexError inside the rule (reported as 'Unexpected exception'). "
+                "Guard it (if not X: return / len test / .get()) or, if a shape invariant makes it safe, review it into R05E_TABLE",
+                detail=detail, construct=construct,
+            )
+            continue
+        used[key] = len(occ)
+        limit, cls, reason = ent[3], ent[4], ent[5]
+        if len(occ) > limit:
+            chk.count("R05e.unreviewed_unguarded", len(occ) - limit)
+            chk.fail(
+                "R05e", occ[-1][0],
+                f"{len(occ)} unguarded occurrences of {short(n0, 80)} in {key[1]}, but only {limit} were reviewed ({cls}): a new unguarded use of the same collection",
+                detail=detail + f" (more than {limit} occurrences)", construct=construct,
+            )
+            continue
+        chk.count(f"R05e.table.{cls}", len(occ))
+        chk.count("R05e.table_sites", len(occ))
+        if cls == "NO_WITNESS":
+            chk.count("R05e.no_witness", len(occ))
+            chk.note(f"R05e no witness / no invariant (listed, not claimed safe): {key[0]}::{key[1]} {key[2]} -- {reason}")
+        chk.ok("R05e", construct, f"{key[2]} [{cls}]")
+        if sampled < 4 and cls in ("PARSER", "GRAMMAR"):
+            sampled += 1
+            chk.sample({"rule": "R05e", "site": f"{n0._module.relpath}:{n0.lineno}", "subscript": short(n0, 70), "class": cls, "reason": reason[:160]})
+    stale = [k for k in table if k not in used]
+    chk.count("R05e.table_entries", len(table))
+    chk.count("R05e.table_entries_stale", len(stale))
+    if stale:
+        chk.note(f"R05e: {len(stale)} reviewed-table entries matched no unguarded site (source moved on or the site is guarded now): " + "; ".join(f"{a}::{b} {c[:40]}" for a, b, c in stale[:8]))
+    # what the reflow-block idiom relies on: every ReflowBlock is built with a one-element segments tuple
+    n_ctor = 0
+    for m, call, seg in _subs.block_constructors(repo):
+        n_ctor += 1
+        ok = isinstance(seg, ast.Tuple) and len(seg.elts) >= 1 and not any(isinstance(x, ast.Starred) for x in seg.elts)
+        chk.require(
+            ok, "R05e", call,
+            f"ReflowBlock constructed with segments={short(seg, 40) if seg is not None else '<missing>'}: not a non-empty tuple display, so block.segments[0] / [-1] "
+            "(used unguarded throughout utils/reflow) may raise IndexError",
+            detail=f"ReflowBlock constructor: segments={short(seg, 40) if seg is not None else '<missing>'}",
+        )
+    chk.count("R05e.reflow_block_constructors", n_ctor)
+    chk.floor("R05e.reflow_block_constructors", 2)
+    chk.floor("R05e.sites", 300)
+    chk.floor("R05e.guarded", 150)
+    if chk.tier == "thorough" and not getattr(chk, "in_selftest", False):
+        _r05e_grammar(chk)
+
+
+def _r05e_grammar(chk) -> None:
+    """PARSER / GRAMMAR entries name segment types that must never be carried by a raw
+    segment (a raw segment has no children: ``.segments[0]`` raises).  Re-checked against
+    the dialect grammar graph: no RawSegment subclass, parser (``StringParser`` ..) or
+    lexer matcher of any dialect produces one of these types."""
+    from ..grammar import load_grammar
+
+    types = sorted({t for ent in R05E_TABLE if len(ent) > 6 for t in ent[6]})
+    g = load_grammar(chk.repo)
+    raw: Dict[str, set] = {}
+    nonraw: set = set()
+    for label, dg in g.items():
+        for nd in dg.iter_nodes():
+            fam = nd.get("family")
+            if fam == "segment":
+                tys = list(nd.get("class_types") or []) or [nd.get("type")]
+                if "RawSegment" in (nd.get("bases") or []):
+                    for t in tys:
+                        raw.setdefault(t, set()).add(f"{label}:{nd.get('name')}")
+                else:
+                    nonraw.update(tys)
+            elif fam == "parser":
+                for t in [nd.get("raw_class_type")] + list(nd.get("instance_types") or []):
+                    if t:
+                        raw.setdefault(t, set()).add(f"{label}:{nd.get('kind')}")
+        for rec, _ in dg.all_lexers():
+            kw = rec.get("segment_kwargs") or {}
+            for t in [rec.get("segment_type"), kw.get("type")] + list(kw.get("instance_types") or []):
+                if t:
+                    raw.setdefault(t, set()).add(f"{label}:lexer:{rec.get('name')}")
+    for t in types:
+        chk.count("R05e.never_raw_types_checked")
+        chk.require(
+            t not in raw, "R05e", None,
+            f"segment type '{t}' (R05E_TABLE relies on nodes of this type having children) can be carried by a raw segment: {sorted(raw.get(t, ()))[:3]}",
+            detail=f"never-raw type {t}", construct="dialect grammars",
+        )
+        if t not in nonraw:
+            chk.note(f"R05e: type '{t}' named by the table is produced by no segment class of any dialect (stale)")
 
 # ---- R05a -------------------------------------------------------------------
 
@@ -885,5 +1171,121 @@ VARIANTS = [
         "                self._log_critical_errors(e)\n                vs.append(\n                    SQLLintError(\n                        rule=self,\n                        segment=context.segment,",
         "                self._log_critical_errors(e)\n                fixes.append(\n                    SQLLintError(\n                        rule=self,\n                        segment=context.segment,",
         "R05c", "BaseRule.crawl",
+    ),
+
+    # ---- R05e ---------------------------------------------------------------
+    Variant(
+        "lt09-get-replaced-by-subscript", "src/sqlfluff/rules/layout/LT09.py",
+        'from_segment = siblings_post.first(sp.is_type("from_clause")).first().get()',
+        'from_segment = siblings_post.first(sp.is_type("from_clause")).first()[0]',
+        "R05e", "LT09.py", ".get() returns None for a select without FROM, [0] raises",
+    ),
+    Variant(
+        "am01-truthiness-guard-dropped", "src/sqlfluff/rules/ambiguous/AM01.py",
+        "            if distinct:\n                return LintResult(anchor=distinct[0])\n",
+        "            return LintResult(anchor=distinct[0])\n",
+        "R05e", "Rule_AM01._eval", "GROUP BY without DISTINCT: distinct is empty",
+    ),
+    Variant(
+        "lt10-early-return-dropped", "src/sqlfluff/rules/layout/LT10.py",
+        "        if not select_clause_modifier_seg:\n            return None\n",
+        "",
+        "R05e", "Rule_LT10._eval", "every select clause without a modifier",
+    ),
+    Variant(
+        "cv13-emptiness-test-became-none-test", "src/sqlfluff/rules/convention/CV13.py",
+        "        if not statements:\n",
+        "        if statements is None:\n",
+        "R05e", "Rule_CV13._eval", "get_children returns an empty list, never None: file of comments only",
+    ),
+    Variant(
+        "cv13-short-circuit-dropped", "src/sqlfluff/rules/convention/CV13.py",
+        'if queries and queries[-1].is_type("select_statement"):',
+        'if queries[-1].is_type("select_statement"):',
+        "R05e", "Rule_CV13._final_select", "WITH ... INSERT: no select_statement / set_expression child",
+    ),
+    Variant(
+        "respace-length-bound-off-by-one", "src/sqlfluff/utils/reflow/respace.py",
+        "align_within = alignment_config[2] if len(alignment_config) > 2 else None",
+        "align_within = alignment_config[2] if len(alignment_config) > 1 else None",
+        "R05e", "_extract_alignment_config", "'align:alias_expression' has two parts",
+    ),
+    Variant(
+        "tq04-short-circuit-swapped", "src/sqlfluff/rules/tsql/TQ04.py",
+        'if segments_before_expression\n            and segments_before_expression[0].is_type("whitespace", "newline")',
+        'if segments_before_expression[0].is_type("whitespace", "newline")\n            and segments_before_expression',
+        "R05e", "Rule_TQ04._eval", "the emptiness test now runs after the subscript",
+    ),
+    Variant(
+        "am05-wrong-keyword-index", "src/sqlfluff/rules/ambiguous/AM05.py",
+        'and join_clause_keywords[0].raw_upper == "JOIN"',
+        'and join_clause_keywords[1].raw_upper == "JOIN"',
+        "R05e", "join_clause_keywords[1]", "a lone JOIN has a single keyword: one more unguarded use than was reviewed",
+    ),
+    Variant(
+        "lt09-collection-shrunk-after-the-guard", "src/sqlfluff/rules/layout/LT09.py",
+        "                if to_delete:\n                    # Clean up by moving leftover select_clause segments.\n",
+        "                if to_delete:\n                    to_delete = to_delete[1:]\n                    # Clean up by moving leftover select_clause segments.\n",
+        "R05e", "to_delete[-1]", "the guard was evaluated on the longer list",
+    ),
+    Variant(
+        "reflow-block-built-from-the-buffer", "src/sqlfluff/utils/reflow/sequence.py",
+        "                    segments=(seg,),\n",
+        "                    segments=tuple(seg_buff),\n",
+        "R05e", "ReflowBlock constructor", "blocks with no segment: every block.segments[0] in utils/reflow may raise",
+    ),
+    Variant(
+        "quiet-al07-redundant-conditional-removed", "src/sqlfluff/rules/aliasing/AL07.py",
+        "base_table[0] if base_table else None,",
+        "base_table[0],",
+        "QUIET", None, "'if not base_table: return None' still dominates",
+    ),
+    Variant(
+        "quiet-lt10-guard-spelled-with-len", "src/sqlfluff/rules/layout/LT10.py",
+        "        if not select_clause_modifier_seg:\n",
+        "        if len(select_clause_modifier_seg) == 0:\n",
+        "QUIET", None, "same guard, different spelling",
+    ),
+    Variant(
+        "quiet-jj01-guard-split-in-two", "src/sqlfluff/rules/jinja/JJ01.py",
+        '            if not stripped or stripped[0] != "{" or stripped[-1] != "}":\n                continue  # pragma: no cover\n',
+        '            if not stripped:\n                continue\n            if stripped[0] != "{" or stripped[-1] != "}":\n                continue  # pragma: no cover\n',
+        "QUIET", None, "short circuit turned into an early continue",
+    ),
+    Variant(
+        "quiet-cv13-guard-through-a-temp", "src/sqlfluff/rules/convention/CV13.py",
+        '        statements = context.segment.get_children("statement")\n        if not statements:\n',
+        '        stmts = context.segment.get_children("statement")\n        statements = stmts\n        if not stmts:\n',
+        "QUIET", None, "the tested name is a plain copy of the subscripted one",
+    ),
+    Variant(
+        "quiet-respace-bound-flipped", "src/sqlfluff/utils/reflow/respace.py",
+        "align_within = alignment_config[2] if len(alignment_config) > 2 else None",
+        "align_within = alignment_config[2] if 3 <= len(alignment_config) else None",
+        "QUIET", None, "same bound written the other way round",
+    ),
+    Variant(
+        "quiet-am01-early-return-form", "src/sqlfluff/rules/ambiguous/AM01.py",
+        "            if distinct:\n                return LintResult(anchor=distinct[0])\n",
+        "            if not distinct:\n                return None\n            return LintResult(anchor=distinct[0])\n",
+        "QUIET", None, "if/else <-> early return",
+    ),
+    Variant(
+        "quiet-st08-conjunction-nested", "src/sqlfluff/rules/structure/ST08.py",
+        "            if modifier and bracketed:\n                # If there's nothing else in the expression, remove the brackets.\n                if len(expression[0].segments) == 1:",
+        "            if modifier and bracketed and expression:\n                # If there's nothing else in the expression, remove the brackets.\n                if len(expression[0].segments) == 1:",
+        "QUIET", None, "an additional (redundant) conjunct",
+    ),
+    Variant(
+        "quiet-st06-membership-as-two-comparisons", "src/sqlfluff/rules/structure/ST06.py",
+        "        if len(segment.segments) not in (1, 2):\n",
+        "        if len(segment.segments) < 1 or len(segment.segments) > 2:\n",
+        "QUIET", None, "same length test spelled with comparisons",
+    ),
+    Variant(
+        "quiet-cv01-condition-through-a-flag", "src/sqlfluff/rules/convention/CV01.py",
+        '        if raw_operator_list not in [["<", ">"], ["!", "="]]:\n            return None\n',
+        '        accepted = raw_operator_list in [["<", ">"], ["!", "="]]\n        if not accepted:\n            return None\n',
+        "QUIET", None, "the test is held in a local flag",
     ),
 ]
